@@ -293,7 +293,7 @@ ASSUMPTIONS = [
 ]
 NOT_COVERED = ["magnitude of the parameter change"]
 
-REPLAY = {"": "c05_frames", "train_ensemble": "c17_pets", "train_td7": "loops_native"}
+REPLAY = {"": "c05_frames", "train_ensemble": "c17_pets", "train_td7": "loops_native", "train_mrq": "loops_native"}
 
 # "An update with a non-zero gradient does change the trained component" for the PETS ensemble also needs
 # train_ensemble to hand at least one batch to train_epoch (whose frame and update are proved above): that is
